@@ -569,6 +569,9 @@ def drive_hot(ctx, build, items, end='complete', mk_item=None, driver='hot'):
                     obs = build(subject)
                     disp = obs.subscribe(on_next=final.on_next, on_error=final.on_error,
                                          on_completed=final.on_completed)
+                    # subscriptions that the case wants made after the data stream was subscribed (still before the first item)
+                    for late in ctx.extra.pop('after_subscribe', ()):
+                        late()
                 for it in items:
                     ctx.seq += 1
                     t = it.get('t', ctx.now) if isinstance(it, dict) else ctx.now
